@@ -28,6 +28,17 @@ package main
 //	    pairwise different (a table of named constants such as the payload
 //	    type prefixes, whose entries key streams).  One obligation per store.
 //
+//	//@ effects C11 : threadowned <Type>.<f1>,<f2>,...@<entry method>
+//	    ownership of mutable fields by one goroutine (race freedom, thread-modular):
+//	    every function of this package that reads or writes one of the listed
+//	    fields of a <Type> object runs only on the goroutine whose entry point is
+//	    <Type>.<entry method>: it is that method, or it is not the target of a
+//	    `go` statement and every function of the package that calls it (or creates
+//	    it as a function literal without starting it with `go`) is itself such a
+//	    function.  Accesses through an object the function has just allocated
+//	    (construction, before the object is shared) are exempt.  One obligation
+//	    per access.
+//
 // Assumptions (reported): memory reachable from a function's parameters is not
 // package-level state unless it was derived from a package-level variable in
 // that function or handed in through a parameter recorded in the summaries
@@ -64,6 +75,8 @@ func (e *Engine) effectUnits(d EffectDirective, only func(string) bool) []*Unit 
 		return e.globalWriteUnits(d, only)
 	case "distinctinit":
 		return e.distinctInitUnits(d, only)
+	case "threadowned":
+		return e.threadOwnedUnits(d, only)
 	}
 	e.fatalf("%s: unknown effects kind %q", d.Src, d.Kind)
 	return nil
@@ -930,4 +943,168 @@ func (e *Engine) distinctInitUnits(d EffectDirective, only func(string) bool) []
 		u.effectObl(fmt.Sprintf("init:%s#%d", d.Prefix, i), e.posOf(a.pos), "the constant stored into "+d.Prefix+" here differs from every other one the initialiser stores into that field", okk, why)
 	}
 	return []*Unit{u}
+}
+
+
+// threadOwnedUnits: see the header (effects ... : threadowned Type.f1,f2@entry).
+func (e *Engine) threadOwnedUnits(d EffectDirective, only func(string) bool) []*Unit {
+	spec := d.Prefix
+	at := strings.Index(spec, "@")
+	dot := strings.Index(spec, ".")
+	if at < 0 || dot < 0 || dot > at {
+		e.fatalf("%s: threadowned <Type>.<f1>,<f2>@<entry method>", d.Src)
+	}
+	typeName, entryName := spec[:dot], spec[at+1:]
+	owned := map[string]bool{}
+	for _, f := range strings.Split(spec[dot+1:at], ",") {
+		owned[strings.TrimSpace(f)] = true
+	}
+	var fns []*ssa.Function
+	for _, f := range e.funcsUnder(d.PkgPath) {
+		if fnPkgPath(f) == d.PkgPath && !isTestOrContractFile(e, f) {
+			fns = append(fns, f)
+		}
+	}
+	inPkg := map[*ssa.Function]bool{}
+	for _, f := range fns {
+		inPkg[f] = true
+	}
+	isOwnedType := func(t types.Type) bool {
+		pt, ok := t.Underlying().(*types.Pointer)
+		if !ok {
+			return false
+		}
+		n, ok := types.Unalias(pt.Elem()).(*types.Named)
+		return ok && n.Obj().Name() == typeName && n.Obj().Pkg() != nil && n.Obj().Pkg().Path() == d.PkgPath
+	}
+	var entry *ssa.Function
+	goTarget := map[*ssa.Function]bool{}
+	callers := map[*ssa.Function]map[*ssa.Function]bool{}
+	addCaller := func(g, f *ssa.Function) {
+		if !inPkg[g] {
+			return
+		}
+		if callers[g] == nil {
+			callers[g] = map[*ssa.Function]bool{}
+		}
+		callers[g][f] = true
+	}
+	for _, f := range fns {
+		if f.Signature.Recv() != nil && isOwnedType(f.Signature.Recv().Type()) && f.Name() == entryName {
+			entry = f
+		}
+		for _, b := range f.Blocks {
+			for _, in := range b.Instrs {
+				switch v := in.(type) {
+				case *ssa.Go:
+					if g := v.Call.StaticCallee(); g != nil {
+						goTarget[g] = true
+					} else if mc, ok := v.Call.Value.(*ssa.MakeClosure); ok {
+						if g, ok := mc.Fn.(*ssa.Function); ok {
+							goTarget[g] = true
+						}
+					}
+				case *ssa.Call:
+					if g := v.Call.StaticCallee(); g != nil {
+						addCaller(g, f)
+					}
+				case *ssa.Defer:
+					if g := v.Call.StaticCallee(); g != nil {
+						addCaller(g, f)
+					}
+				case *ssa.MakeClosure:
+					g, ok := v.Fn.(*ssa.Function)
+					if !ok {
+						continue
+					}
+					startedWithGo := false
+					if refs := v.Referrers(); refs != nil {
+						for _, r := range *refs {
+							if gi, ok := r.(*ssa.Go); ok && gi.Call.Value == ssa.Value(v) {
+								startedWithGo = true
+							}
+						}
+					}
+					if !startedWithGo {
+						addCaller(g, f)
+					}
+				}
+			}
+		}
+	}
+	if entry == nil {
+		e.fatalf("%s: entry method %s.%s not found", d.Src, typeName, entryName)
+	}
+	// greatest fixed point: the functions that run only on the owner goroutine
+	own := map[*ssa.Function]bool{}
+	for _, f := range fns {
+		own[f] = true
+	}
+	for changed := true; changed; {
+		changed = false
+		for _, f := range fns {
+			if !own[f] || f == entry {
+				continue
+			}
+			ok := !goTarget[f] && len(callers[f]) > 0
+			for c := range callers[f] {
+				if !own[c] {
+					ok = false
+				}
+			}
+			if !ok {
+				own[f] = false
+				changed = true
+			}
+		}
+	}
+	var units []*Unit
+	for _, f := range fns {
+		var u *Unit
+		k := 0
+		for _, b := range f.Blocks {
+			for _, in := range b.Instrs {
+				fa, ok := in.(*ssa.FieldAddr)
+				if !ok || !isOwnedType(fa.X.Type()) {
+					continue
+				}
+				st := fa.X.Type().Underlying().(*types.Pointer).Elem().Underlying().(*types.Struct)
+				fname := st.Field(fa.Field).Name()
+				if !owned[fname] {
+					continue
+				}
+				if _, fresh := fa.X.(*ssa.Alloc); fresh {
+					continue // the object is being constructed and is not shared yet
+				}
+				if u == nil {
+					u = e.effectUnit(f, d)
+					if only != nil && !only(u.Name) {
+						u = nil
+						break
+					}
+				}
+				why := ""
+				if !own[f] {
+					switch {
+					case goTarget[f]:
+						why = "the function is started with a go statement"
+					case len(callers[f]) == 0:
+						why = "the function can be called from any goroutine (no caller inside the package)"
+					default:
+						for c := range callers[f] {
+							if !own[c] {
+								why = "it is called by " + e.funcKey(c) + ", which does not run only on the owner goroutine"
+							}
+						}
+					}
+				}
+				u.effectObl(fmt.Sprintf("owned:%s.%s#%d", typeName, fname, k), e.posOf(fa.Pos()), "field "+typeName+"."+fname+" is accessed only on the goroutine of "+typeName+"."+entryName, own[f], why)
+				k++
+			}
+		}
+		if u != nil {
+			units = append(units, u)
+		}
+	}
+	return units
 }
